@@ -66,14 +66,29 @@ static const char *pat_src(xregex_t re)
 
 /* exec mode: regexec is faked (a device reply that matches is not needed to observe the plug context) */
 static int fake_exec;            /* 0 = real regexec; 1 = fake */
-static int fake_interp;          /* result reported for interpretation patterns (xm == NULL) when faking */
+static int fake_interp;          /* interpretation patterns (xm == NULL) when faking: 0 = none matches,
+                                    1 = only on= / success= match, 2 = only off= match */
+#define MAXINTERP 20000
+static struct { xregex_t re; int positive; } interps[MAXINTERP];
+static int ninterps;
+static int interp_positive(xregex_t re)
+{
+    int i;
+    for (i = ninterps - 1; i >= 0; i--)
+        if (interps[i].re == re)
+            return interps[i].positive;
+    return 1;
+}
 bool xregex_exec(xregex_t xrp, const char *s, xregex_match_t xm)
 {
     int i;
     if (!fake_exec)
         return real_xregex_exec(xrp, s, xm);
-    if (xm == NULL)
-        return fake_interp ? true : false;
+    if (xm == NULL) {
+        if (fake_interp == 0)
+            return false;
+        return (fake_interp == 1) == (interp_positive(xrp) != 0);
+    }
     assert(xm->xm_used == false);
     xm->xm_result = 0;
     xm->xm_used = true;
@@ -91,6 +106,10 @@ bool xregex_exec(xregex_t xrp, const char *s, xregex_match_t xm)
     }
     return true;
 }
+
+/* the real pluglist.c, included so that the `hardwired` flag (plug names given by the specification, as opposed to
+ * plugs created by `node` lines) is visible */
+#include "pluglist.c"
 
 /* the real device.c, with calls to hsprintf redirected to a logger */
 #include "hprintf.h"
@@ -198,7 +217,7 @@ static void dump_device(Device *dev)
     while ((plug = pluglist_next(pitr)))
         n++;
     pluglist_iterator_destroy(pitr);
-    if (n == 0)
+    if (!dev->plugs->hardwired)
         printf("PLUGS none\n");
     else {
         printf("PLUGS %d", n);
@@ -241,6 +260,18 @@ static void index_block(List l, int script, const char *prefix)
                 nsends++;
             }
             break;
+        case STMT_SETPLUGSTATE: {
+            ListIterator it2 = list_iterator_create(st->u.setplugstate.interps);
+            StateInterp *si;
+            while ((si = list_next(it2)))
+                if (ninterps < MAXINTERP) {
+                    interps[ninterps].re = si->re;
+                    interps[ninterps].positive = (si->state == ST_ON);
+                    ninterps++;
+                }
+            list_iterator_destroy(it2);
+            break;
+        }
         case STMT_FOREACHPLUG:
         case STMT_FOREACHNODE:
             index_block(st->u.foreach.stmts, script, p);
@@ -320,7 +351,7 @@ static void exec_device(Device *dev)
     static const int plain[] = { PM_LOG_IN, PM_LOG_OUT, PM_PING };
     PlugListIterator pitr;
     Plug *plug;
-    char *nodes[64];
+    char *nodes[256];
     int nn = 0, i, t, st, fi;
 
     nsends = 0;
@@ -336,13 +367,13 @@ static void exec_device(Device *dev)
     dev->timeout.tv_sec = 1000;           /* the time-out is not what R-CTX is about */
     pitr = pluglist_iterator_create(dev->plugs);
     while ((plug = pluglist_next(pitr)))
-        if (plug->node && nn < 64)
+        if (plug->node && nn < 256)
             nodes[nn++] = plug->node;
     pluglist_iterator_destroy(pitr);
     printf("XSPEC "); hexs(dev->specname); printf(" nodes=%d\n", nn);
 
     fake_exec = 1;
-    for (fi = 0; fi < 2; fi++) {
+    for (fi = 0; fi < 3; fi++) {
         fake_interp = fi;
         for (i = 0; i < 3; i++) {
             if (!dev->scripts[plain[i]])
